@@ -6,6 +6,7 @@ from ..check import Result
 from ..core import op_local, op_place, op_const, place_local, place_projs, proj_fields, resolve_operand
 from ..facts import DbInfo, DB, split_top
 from ..reviewed import REVIEWED
+from .. import roles
 
 
 def _db(ctx):
@@ -360,7 +361,32 @@ def r3d_hit(ctx):
 
 # ------------------------------------------------------------------------------------------ version bumps
 def version_field(db):
-    return db.atomics[0] if len(db.atomics) == 1 else None
+    """the definitions version: the atomic counter of the database whose loads stamp the most caches (a database may grow
+    further counters -- statistics, a second version for another index; they are not the anchor)"""
+    if len(db.atomics) == 1:
+        return db.atomics[0]
+    if not db.atomics:
+        return None
+    if getattr(db, "_vf", None) is not None:
+        return db._vf
+    crate = db.crate
+    score = defaultdict(int)
+    for f in crate.real_fns():
+        loads = set()
+        for bb, c in f.calls():
+            if (c.get("res") or "").endswith("::load") and "atomic" in (c.get("res") or "") and c["args"]:
+                for p in resolve_operand(crate, f, c["args"][0]):
+                    for o, n in p.fields:
+                        if o == DB and n in db.atomics:
+                            loads.add(n)
+        if not loads:
+            continue
+        stamped = {op.ident.split(".")[-1] for op in db.fn_ops(f.id) if op.method == "insert" and op.ident.split(".")[-1] in stamped_caches(db)}
+        for n in loads:
+            score[n] += len(stamped)
+    best = sorted(score.items(), key=lambda kv: -kv[1])
+    db._vf = best[0][0] if best and best[0][1] > 0 and (len(best) == 1 or best[0][1] > best[1][1]) else None
+    return db._vf
 
 
 def bump_sites(ctx, db):
@@ -730,7 +756,7 @@ def r3d_membership_gate(ctx):
             korig = db.origins.of_operand(f, op.call["args"][1]) if len(op.call["args"]) > 1 else set()
             if none_t is not None and any(_reaches_from(f, none_t, rb) for rb in reads):
                 r.ok(sample={"get": key, "fallback": "read_to_string on the None path"})
-            elif korig and all(t[0] == "call" and (t[2] or "").endswith("::uri_to_path") for t in korig):
+            elif korig and all(t[0] == "call" and (t[2] or "") in roles.uri_converters(ctx) for t in korig):
                 # the request's own document: present in the cache from didOpen to didClose by protocol (eviction of an open
                 # document's text is the stated undecided remainder of C07)
                 r.ok(sample={"get": key, "key": "the request's own document (uri_to_path of the request)"})
